@@ -35,14 +35,28 @@ for f in known:
         continue
     fid, pid, commit = f["id"], f["property"], f["commit"]
     sh("git checkout -q -- . ; git clean -fdq")
-    rc, diff = sh(f"git -C /repo show {commit} --format= ")
-    open("/tmp/revert.patch", "w").write(diff)
-    rc, o = sh("git apply -R /tmp/revert.patch")
+    def rev(c):
+        rc, diff = sh(f"git -C /repo show {c} --format= ")
+        open("/tmp/revert.patch", "w").write(diff)
+        return sh("git apply -R /tmp/revert.patch")
+    rc, o = rev(commit)
+    composite = [commit]
     if rc != 0:
-        rc, o = sh("git apply -R --3way /tmp/revert.patch")
-    if rc != 0:
-        print(f"{fid}: reverse patch of {commit} does not apply: {o[-300:]}", flush=True)
-        continue
+        # later fix: commits touching the same files have to be reverted first (newest first)
+        sh("git checkout -q -- . ; git clean -fdq")
+        rc0, files = sh(f"git -C /repo show {commit} --format= --name-only")
+        files = set(files.split())
+        rc0, later = sh(f"git -C /repo log --format=%h {commit}..HEAD --grep='^fix:' -- " + " ".join(files))
+        composite = later.split() + [commit]
+        ok = True
+        for c in composite:
+            rc, o = rev(c)
+            if rc != 0:
+                ok = False
+                break
+        if not ok:
+            print(f"{fid}: reverse patch of {commit} does not apply even as composite {composite}: {o[-300:]}", flush=True)
+            continue
     rc, rdiff = sh("git diff")
     chk = {}
     for tier in ("quick", "thorough"):
@@ -63,7 +77,7 @@ for f in known:
     os.makedirs(dst, exist_ok=True)
     open(f"{dst}/patch.diff", "w").write(rdiff)
     caught = any(v["exit"] != 0 for v in chk.values())
-    json.dump({"property": pid, "id": f"revert-{fid}", "reverts_fix_commit": commit,
+    json.dump({"property": pid, "id": f"revert-{fid}", "reverts_fix_commit": commit, "reverted_commits": composite,
                "summary": f["what"], "origin": "reverse patch of the fix: commit (the original defect)",
                "needs_to_manifest": "see summary: the specific input/history of the original finding",
                "demonstration": f"./check {pid} --replay seeded/revert-{fid}/replay.json (fails with patch.diff applied to /repo, passes without)",
